@@ -34,6 +34,8 @@ func c14ComposeSchemas(plugins []composePlugin, typeName string) ast.Schemas {
 		ast.NewStructField("widgets", ast.NewArray(ast.NewRef("core", typeName)), ast.Required()),
 		ast.NewStructField("main", ast.NewRef("core", typeName)),
 		ast.NewStructField("byName", ast.NewMap(ast.String(), ast.NewRef("core", typeName))),
+		ast.NewStructField("spare", ast.NewRef("core", typeName, ast.Nullable())),
+		ast.NewStructField("spares", ast.NewArray(ast.NewRef("core", typeName, ast.Nullable()))),
 	)))
 	schemas := ast.Schemas{core, board}
 	for _, p := range plugins {
@@ -242,6 +244,14 @@ func checkC14Compose(r *Run) {
 							}
 							covered[key][d.target.BuilderPkg+"."+d.target.BuilderName] = true
 						}
+					}
+				}
+				// the plan describes the value it reads: its type is the type found at the value's path, nullability included
+				// (the templates decide on it whether to dereference)
+				if n := len(d.target.ValuePath); n > 0 {
+					at := d.target.ValuePath[n-1].Type
+					if !sameTypeShape(at, d.target.ValueType) || at.Nullable != d.target.ValueType.Nullable {
+						r.Violation("compose/delegation-value-type-vs-path", fmt.Sprintf("the delegated value is described as %s (nullable=%v) but the path it is read from holds %s (nullable=%v): %s", typeSummary(d.target.ValueType, 0), d.target.ValueType.Nullable, typeSummary(at, 0), at.Nullable, where), replay)
 					}
 				}
 				var target *ast.Builder
